@@ -102,6 +102,14 @@ def finish(prop, pc, tier, seed, results, kani_res, wall, update_baseline=False)
             base[u] = sorted(set(base.get(u, [])) | set(ids)) if u == "kani" else ids
         os.makedirs(os.path.dirname(bpath), exist_ok=True)
         json.dump(base, open(bpath, "w"), indent=1, sort_keys=True)
+        # the tags of every obligation (used when a function can no longer be extracted at all)
+        ppath = os.path.join(VERIF, "baseline", "obligation_props.json")
+        pb = _load(ppath, {})
+        for r in results:
+            if r.map is None or getattr(r, "order_only", False) or getattr(r, "rejected", []):
+                continue
+            pb[r.name] = {oid: {"props": o["props"], "fn": o["fn"], "text": o["text"][:300]} for oid, o in sorted(r.obligations.items())}
+        json.dump(pb, open(ppath, "w"), indent=1, sort_keys=True)
         log("baseline updated for units", list(all_ids_by_unit))
     else:
         for u, ids in all_ids_by_unit.items():
